@@ -396,15 +396,15 @@ Lemma uinv_deposit_go c t v e :
 Proof.
   intros I Epc Hcl. pose proof I as I0. destruct I.
   assert (Hs : usending (uc_pc c t) = Some (v, Pre)) by (rewrite Epc; reflexivity).
-  assert (Hn : uc_slot c = None) by (destruct (u_ck0 _ _ _ Epc); congruence).
+  assert (Hn : uc_slot c = None) by (pose proof (u_ck0 t) as X; rewrite Epc in X; destruct X; congruence).
   assert (Hm : uc_mtx c = Some t) by (apply u_mx0; rewrite Epc; reflexivity).
   destruct (uinv_deposit_val c t v I0 Hs Hn) as (Hc & Hnd & Hso & Hbd & Hnt & Hov).
   destruct (u_val0 _ _ _ Hs) as (Ev & Hpos & _).
   pose proof (others_not_holding c t I0 (or_intror Hm)) as Hoth.
   constructor; auto.
   - cbn. intros t0. unfold upd. destruct (Nat.eqb_spec t0 t); [subst; cbn; tauto|apply u_mx0].
-  - cbn. intros t0 v0 e0. unfold upd. destruct (Nat.eqb_spec t0 t); [discriminate|].
-    intros E. specialize (Hoth _ n). rewrite E in Hoth. discriminate.
+  - intros t0. unfold local_ok. cbn. unfold upd. destruct (Nat.eqb_spec t0 t); [exact I|].
+    specialize (Hoth _ n). destruct (uc_pc c t0); try exact I; discriminate.
   - intros t0 v0 ph. cbn [uc_pc k_goto k_slot uc_cnt uc_seq uc_slot uc_taken]. unfold upd.
     destruct (Nat.eqb_spec t0 t).
     + subst. cbn. intros E; inversion E; subst. repeat split; auto.
@@ -436,8 +436,8 @@ Proof.
   constructor; auto.
   - cbn. intros t0. unfold upd. destruct (Nat.eqb_spec t0 t); [subst; cbn; split; discriminate|].
     rewrite (Hoth _ n). split; discriminate.
-  - cbn. intros t0 v0 e0. unfold upd. destruct (Nat.eqb_spec t0 t); [discriminate|].
-    intros E. specialize (Hoth _ n). rewrite E in Hoth. discriminate.
+  - intros t0. unfold local_ok. cbn. unfold upd. destruct (Nat.eqb_spec t0 t); [exact I|].
+    specialize (Hoth _ n). destruct (uc_pc c t0); try exact I; discriminate.
   - intros t0 v0 ph. cbn [uc_pc k_finish k_mtx k_slot uc_cnt uc_seq uc_slot uc_taken]. unfold upd.
     destruct (Nat.eqb_spec t0 t); [discriminate|].
     intros E. destruct (u_val0 _ _ _ E) as (A & B & C). repeat split; auto. destruct ph.
@@ -474,8 +474,8 @@ Proof.
   constructor; rewrite ?Hc'; try (rewrite <- Hc; assumption).
   - cbn. intros t0. unfold upd. destruct (Nat.eqb_spec t0 t); [subst; cbn; split; discriminate|].
     rewrite (Hoth _ n). split; discriminate.
-  - cbn. intros t0 v0 e0. unfold upd. destruct (Nat.eqb_spec t0 t); [discriminate|].
-    intros E. specialize (Hoth _ n). rewrite E in Hoth. discriminate.
+  - intros t0. unfold local_ok. cbn. unfold upd. destruct (Nat.eqb_spec t0 t); [exact I|].
+    specialize (Hoth _ n). destruct (uc_pc c t0); try exact I; discriminate.
   - intros t0 v0 ph E. cbn in E. unfold upd in E.
     destruct (Nat.eqb_spec t0 t); [discriminate|].
     destruct (u_val0 _ _ _ E) as (A & B & C). split; [exact A|]. split; [exact B|]. destruct ph.
@@ -511,8 +511,8 @@ Proof.
   constructor; rewrite ?Hc'.
   - cbn. intros t0. unfold upd. destruct (Nat.eqb_spec t0 t); [subst; cbn; split; discriminate|].
     rewrite (Hoth _ n). split; discriminate.
-  - cbn. intros t0 v0 e0. unfold upd. destruct (Nat.eqb_spec t0 t); [discriminate|].
-    intros E. specialize (Hoth _ n). rewrite E in Hoth. discriminate.
+  - intros t0. unfold local_ok. cbn. unfold upd. destruct (Nat.eqb_spec t0 t); [exact I|].
+    specialize (Hoth _ n). destruct (uc_pc c t0); try exact I; discriminate.
   - intros t0 v0 ph E. cbn in E. unfold upd in E.
     destruct (Nat.eqb_spec t0 t); [discriminate|].
     destruct (u_val0 _ _ _ E) as (A & B & C). split; [exact A|]. split; [exact B|]. destruct ph.
@@ -564,8 +564,8 @@ Proof.
     + rewrite H1. destruct Hm as [[Hm Hm2]|[Hm Hh]].
       * rewrite Hm. rewrite (others_not_holding c t I0 Hm2 _ n). split; discriminate.
       * rewrite Hm. apply u_mx0.
-  - cbn. intros t0 v0 e0. unfold upd. destruct (Nat.eqb_spec t0 t); [discriminate|].
-    rewrite H1, H7, H3. apply u_ck0.
+  - intros t0. unfold local_ok. cbn. unfold upd. destruct (Nat.eqb_spec t0 t); [exact I|].
+    rewrite H1, H7, H3, H4. apply u_ck0.
   - intros t0 v0 ph E. cbn in E. unfold upd in E. destruct (Nat.eqb_spec t0 t); [discriminate|].
     rewrite H1 in E. destruct (u_val0 _ _ _ E) as (A & B & C). cbn. rewrite H2, H3, H4, H5.
     split; [exact A|]. split; [exact B|]. destruct ph; auto.
@@ -586,3 +586,206 @@ Proof.
     destruct r; cbn; try exact u_recv0. exfalso. apply Hr; reflexivity.
   - cbn. rewrite H6, H7. constructor; [exact Hc|exact u_closedr0].
 Qed.
+
+Lemma kfree_none c : kfree c = true -> uc_mtx c = None.
+Proof. unfold kfree. destruct (uc_mtx c); [discriminate|reflexivity]. Qed.
+
+Ltac fin_gen c0 :=
+  eapply (uinv_finish_gen c0); try reflexivity; auto.
+
+Lemma uinv_ucstep c t to c' : UInv c -> ucstep c t to = Some c' -> UInv c'.
+Proof.
+  intros I H. pose proof I as I0. destruct I. unfold ucstep in H.
+  destruct (uc_pc c t) eqn:Epc.
+  - (* UIdle *)
+    destruct (uc_prog c t) as [|[] ?]; [discriminate|..]; inversion H; subst; clear H.
+    + apply uinv_start; auto.
+    + apply uinv_goto; auto; rewrite ?Epc; cbn; auto.
+    + apply uinv_start; auto.
+    + apply uinv_goto; auto; rewrite ?Epc; cbn; auto.
+    + apply uinv_goto; auto; rewrite ?Epc; cbn; auto.
+    + fin_gen c; rewrite ?Epc; cbn; auto; try discriminate.
+  - (* US_lock *)
+    destruct (kfree c) eqn:Ef; [|discriminate]. inversion H; subst; clear H. apply kfree_none in Ef.
+    change (UInv (k_goto (k_mtx (k_sw c (uc_sw c + 1)) (Some t)) t (US_l1 v e))).
+    apply uinv_move; try apply uinv_sw; auto; cbn; rewrite ?Epc; auto.
+  - (* US_l1 *)
+    assert (Hm : uc_mtx c = Some t) by (apply u_mx0; rewrite Epc; reflexivity).
+    destruct (u_val0 t v Pre) as (Ev & Hpos & Hnin); [rewrite Epc; reflexivity|].
+    destruct (uc_closed c) eqn:Ecl.
+    { inversion H; subst; clear H. apply uinv_goto; auto; rewrite ?Epc; cbn; auto. }
+    destruct ((uc_rw c =? 0) || is_some (uc_slot c)) eqn:Ew.
+    + destruct (expired (uc_now c) e).
+      * inversion H; subst; clear H. unfold k_ret_send.
+        fin_gen (k_sw c (uc_sw c - 1)); try apply uinv_sw; auto; cbn; rewrite ?Epc; cbn; auto; try discriminate.
+        all: try solve [repeat split; auto; discriminate].
+      * inversion H; subst; clear H. apply uinv_move; auto; rewrite ?Epc; cbn; auto.
+    + inversion H; subst; clear H. apply uinv_goto; auto; rewrite ?Epc; cbn; auto.
+      apply orb_false_elim in Ew. destruct Ew as [_ Ew]. right. destruct (uc_slot c); [discriminate|reflexivity].
+  - (* US_w1 *)
+    destruct (kfree c) eqn:Ef; [|discriminate]. apply kfree_none in Ef.
+    destruct (u_val0 t v Pre) as (Ev & Hpos & Hnin); [rewrite Epc; reflexivity|].
+    destruct to; inversion H; subst; clear H.
+    + unfold k_ret_send.
+      fin_gen (k_sw c (uc_sw c - 1)); try apply uinv_sw; auto; cbn; rewrite ?Epc; cbn; auto; try discriminate.
+      all: try solve [repeat split; auto; discriminate].
+    + apply uinv_move; auto; rewrite ?Epc; cbn; auto.
+  - (* US_ck *)
+    assert (Hm : uc_mtx c = Some t) by (apply u_mx0; rewrite Epc; reflexivity).
+    destruct (u_val0 t v Pre) as (Ev & Hpos & Hnin); [rewrite Epc; reflexivity|].
+    destruct (uc_closed c) eqn:Ecl; inversion H; subst; clear H.
+    + unfold k_ret_send.
+      fin_gen (k_sw c (uc_sw c - 1)); try apply uinv_sw; auto; cbn; rewrite ?Epc; cbn; auto; try discriminate.
+      all: try solve [repeat split; auto; try discriminate; intros [X|X]; discriminate].
+    + eapply uinv_deposit_go; eauto.
+  - (* US_l2 *)
+    assert (Hm : uc_mtx c = Some t) by (apply u_mx0; rewrite Epc; reflexivity).
+    destruct (Nat.eqb_spec (uc_seq c) q) as [Eq|Nq]; cbn [negb] in H.
+    + destruct (uc_closed c) eqn:Ecl.
+      { inversion H; subst; clear H. apply uinv_goto; auto; rewrite ?Epc; cbn; auto. }
+      destruct (expired (uc_now c) e); inversion H; subst; clear H.
+      * unfold k_ret_send.
+        change (UInv (k_finish (k_mtx (k_slot (k_sw c (uc_sw c - 1)) None) None) t KSend (Some v) RTimeout e)).
+        eapply uinv_withdraw; [apply uinv_sw; exact I0|cbn; exact Epc|reflexivity].
+      * apply uinv_move; auto; rewrite ?Epc; cbn; auto.
+    + inversion H; subst; clear H. apply uinv_goto; auto; rewrite ?Epc; cbn; auto.
+  - (* US_w2 *)
+    destruct (kfree c) eqn:Ef; [|discriminate]. apply kfree_none in Ef.
+    inversion H; subst; clear H. apply uinv_move; auto; rewrite ?Epc; cbn; auto.
+  - (* US_rt *)
+    assert (Hm : uc_mtx c = Some t) by (apply u_mx0; rewrite Epc; reflexivity).
+    destruct (u_val0 t v (Post q)) as (Ev & Hpos & Hph); [rewrite Epc; reflexivity|].
+    pose proof (u_ck0 t) as Hl. rewrite Epc in Hl. cbn in Hl.
+    inversion H; subst; clear H. unfold k_ret_send.
+    fin_gen (k_sw c (uc_sw c - 1)); try apply uinv_sw; auto; cbn; rewrite ?Epc; cbn; auto.
+    + destruct (Nat.eqb_spec (uc_seq c) q) as [Eq|Nq]; cbn.
+      * repeat split; auto; try discriminate. intros [X|X]; discriminate.
+      * destruct Hph as [(X & _)|(Hlt & Hin)]; [congruence|].
+        repeat split; auto; try discriminate.
+        -- unfold chan. apply in_or_app. left. exact Hin.
+        -- intros [X|X]; discriminate.
+    + discriminate.
+    + destruct (Nat.eqb_spec (uc_seq c) q) as [Eq|Nq]; cbn; [|discriminate].
+      intros _. destruct Hl as [Hl|Hl]; [congruence|exact Hl].
+  - (* UR_lock *)
+    destruct (kfree c) eqn:Ef; [|discriminate]. inversion H; subst; clear H. apply kfree_none in Ef.
+    change (UInv (k_goto (k_mtx (k_rw c (uc_rw c + 1)) (Some t)) t (UR_l e))).
+    apply uinv_move; try apply uinv_rw; auto; cbn; rewrite ?Epc; auto.
+  - (* UR_l *)
+    assert (Hm : uc_mtx c = Some t) by (apply u_mx0; rewrite Epc; reflexivity).
+    destruct (uc_slot c) as [v|] eqn:Esl.
+    + inversion H; subst; clear H. unfold k_ret_recv.
+      change (UInv (k_finish (k_mtx (k_take (k_rw c (uc_rw c - 1)) v) None) t KRecv (Some v) ROk e)).
+      apply uinv_take; try apply uinv_rw; auto; cbn; rewrite ?Epc; auto.
+    + destruct (uc_closed c) eqn:Ecl; [|destruct (expired (uc_now c) e)]; inversion H; subst; clear H.
+      * unfold k_ret_recv. fin_gen (k_rw c (uc_rw c - 1)); try apply uinv_rw; auto; cbn; rewrite ?Epc; cbn; auto; discriminate.
+      * unfold k_ret_recv. fin_gen (k_rw c (uc_rw c - 1)); try apply uinv_rw; auto; cbn; rewrite ?Epc; cbn; auto; discriminate.
+      * apply uinv_move; auto; rewrite ?Epc; cbn; auto.
+  - (* UR_w *)
+    destruct (kfree c) eqn:Ef; [|discriminate]. apply kfree_none in Ef.
+    destruct to; inversion H; subst; clear H.
+    + unfold k_ret_recv. fin_gen (k_rw c (uc_rw c - 1)); try apply uinv_rw; auto; cbn; rewrite ?Epc; cbn; auto; discriminate.
+    + apply uinv_move; auto; rewrite ?Epc; cbn; auto.
+  - (* UTS_lock *)
+    destruct (kfree c) eqn:Ef; [|discriminate]. apply kfree_none in Ef.
+    inversion H; subst; clear H. apply uinv_move; auto; rewrite ?Epc; cbn; auto.
+  - (* UTS_ck *)
+    assert (Hm : uc_mtx c = Some t) by (apply u_mx0; rewrite Epc; reflexivity).
+    destruct (u_val0 t v Pre) as (Ev & Hpos & Hnin); [rewrite Epc; reflexivity|].
+    destruct (uc_closed c) eqn:Ecl; [|destruct ((0 <? uc_rw c) && negb (is_some (uc_slot c))) eqn:Ed];
+      inversion H; subst; clear H.
+    + fin_gen c; cbn; rewrite ?Epc; cbn; auto; try discriminate.
+      all: try solve [repeat split; auto; try discriminate; intros [X|X]; discriminate].
+    + apply uinv_deposit_fin; auto. apply andb_prop in Ed. destruct Ed as [_ Ed].
+      destruct (uc_slot c); [discriminate|reflexivity].
+    + fin_gen c; cbn; rewrite ?Epc; cbn; auto; try discriminate.
+      all: try solve [repeat split; auto; discriminate].
+  - (* UTR_lock *)
+    destruct (kfree c) eqn:Ef; [|discriminate]. apply kfree_none in Ef.
+    destruct (uc_slot c) as [v|] eqn:Esl; inversion H; subst; clear H.
+    + apply uinv_take; auto; rewrite ?Epc; auto.
+    + fin_gen c; cbn; rewrite ?Epc; cbn; auto; try discriminate.
+    all: try solve [right; rewrite Epc; auto].
+  - (* UC_x *)
+    destruct (uc_closed c) eqn:Ecl; inversion H; subst; clear H.
+    + fin_gen c; cbn; rewrite ?Epc; cbn; auto; try discriminate.
+    all: try solve [right; rewrite Epc; auto].
+    + apply uinv_goto; try apply uinv_closed; auto; cbn; rewrite ?Epc; auto.
+  - (* UC_lock *)
+    destruct (kfree c) eqn:Ef; [|discriminate]. apply kfree_none in Ef.
+    inversion H; subst; clear H.
+    fin_gen c; cbn; rewrite ?Epc; cbn; auto; try discriminate.
+Qed.
+
+Theorem uinv_reach progs now0 s : ureach true progs now0 s -> UInv (ucore_of s).
+Proof.
+  induction 1 as [|s l s' R IH H].
+  - apply uinv_init.
+  - destruct l as [t|t|d]; cbn in H.
+    + destruct (ustep_core _ _ _ H) as (to & Hc). eapply uinv_ucstep; eauto.
+    + rewrite (utimer_core _ _ _ H). exact IH.
+    + inversion H; subst. change (UInv (k_now (ucore_of s) (u_now s + Z.of_nat d))). apply uinv_now. exact IH.
+Qed.
+
+(* ---- the clauses of C09 for the unbuffered channel, REPAIRED code ----------------------------- *)
+Section UnbufferedClauses.
+  Variables (progs : tid -> list op) (now0 : Z).
+  Notation reach := (ureach true progs now0).
+
+  Definition u_offered (s : ust) (v : val) : Prop := (snd v < u_cnt s (fst v))%nat.
+  (* a call of kind k (KSend / KTrySend) with value v has returned r *)
+  Definition u_send_ret (s : ust) (k : opkind) (v : val) (r : res) : Prop :=
+    exists e, In e (u_log s) /\ e_k e = k /\ e_v e = Some v /\ e_r e = r.
+
+  (* exactly once.  u_taken = the values handed to successful recv/try_recv calls, in order (the
+     take and the return are one step): it never repeats a value; a blocking send returns true only
+     if its value is in it; a try_send that returned true has its value in it or still in the slot
+     (where the next receiver finds it); the successful receives are exactly the takes. *)
+  Theorem unbuf_exactly_once s : reach s ->
+    NoDup (u_taken s ++ opt_list (u_slot s)) /\
+    (forall v, u_send_ret s KSend v ROk -> In v (u_taken s)) /\
+    (forall v, u_send_ret s KTrySend v ROk -> In v (u_taken s ++ opt_list (u_slot s))) /\
+    recv_vals (u_log s) = rev (u_taken s).
+  Proof.
+    intros R. destruct (uinv_reach _ _ _ R). cbn in *. unfold chan in *. cbn in *.
+    rewrite Forall_forall in u_logok0. repeat split; auto.
+    - intros v (e & Hin & Hk & Hv & Hr).
+      destruct (u_logok0 _ Hin) as (n & A & _ & C & _); [rewrite Hk; reflexivity|].
+      rewrite Hv in A. inversion A. apply C; auto.
+    - intros v (e & Hin & Hk & Hv & Hr).
+      destruct (u_logok0 _ Hin) as (n & A & _ & _ & C & _); [rewrite Hk; reflexivity|].
+      rewrite Hv in A. inversion A. apply C; auto.
+  Qed.
+
+  (* a send that timed out / a try_send that found no receiver is never delivered *)
+  Theorem unbuf_timeout_not_delivered s k v r : reach s -> is_sendk k = true ->
+    u_send_ret s k v r -> r = RTimeout \/ r = RNo -> ~ In v (u_taken s) /\ u_slot s <> Some v.
+  Proof.
+    intros R Hk (e & Hin & Ek & Hv & Hr) Hne. destruct (uinv_reach _ _ _ R). cbn in *. unfold chan in *. cbn in *.
+    rewrite Forall_forall in u_logok0.
+    destruct (u_logok0 _ Hin) as (n & A & _ & _ & _ & C); [rewrite Ek; exact Hk|].
+    rewrite Hv in A. inversion A. subst v. rewrite Hr in C. specialize (C Hne).
+    split; intros X; apply C; apply in_or_app; [left; exact X|right].
+    change (uc_slot (ucore_of s)) with (u_slot s). rewrite X. left. reflexivity.
+  Qed.
+
+  (* no invention: whatever is delivered (or waits in the slot) was offered by a send call *)
+  Theorem unbuf_no_invention s v : reach s -> In v (u_taken s ++ opt_list (u_slot s)) -> u_offered s v.
+  Proof.
+    intros R H. destruct (uinv_reach _ _ _ R). cbn in *. destruct v as [t n]. apply u_bound0. exact H.
+  Qed.
+
+  (* the values of one sender are delivered in the order of its calls *)
+  Theorem unbuf_fifo s : reach s -> sender_sorted (u_taken s ++ opt_list (u_slot s)).
+  Proof. intros R. destruct (uinv_reach _ _ _ R). exact u_sorted0. Qed.
+
+  Theorem unbuf_closed_reason s e : reach s -> In e (u_log s) -> e_r e = RClosed -> u_closed s = true.
+  Proof.
+    intros R Hin Hr. destruct (uinv_reach _ _ _ R). cbn in *. rewrite Forall_forall in u_closedr0. eauto.
+  Qed.
+
+  (* mutual exclusion of the critical sections (the side condition of the atomic-step granularity):
+     a thread is inside a block that touches the slot / counters iff it holds m_unbuf_mutex *)
+  Theorem unbuf_footprint_protected s t : reach s -> (holds (u_pc s t) = true <-> u_mtx s = Some t).
+  Proof. intros R. destruct (uinv_reach _ _ _ R). apply u_mx0. Qed.
+End UnbufferedClauses.
